@@ -81,6 +81,9 @@ def run(run):
                             names = []
                             for kind, a in args:
                                 a = strip(a)
+                                # the declarations may pass through the (verified, C02.S2) text escaper or a borrow
+                                while a[0] == "call" and a[2] and re.search(r"::escape_html_text$|[dD]eref>?::deref$|::as_str$|::as_ref$|::borrow$|::clone$|ToString>?::to_string$", a[1]):
+                                    a = strip(a[2][0])
                                 names.append({("0",): "NAME", ("1",): "DECL"}.get(tuple(f for f in a[2] if f.isdigit()), "?") if a[0] == "param" and a[1] == 2 else "?")
                             it = iter(names)
                             text = "".join(p[1] if p[0] == "lit" else next(it, "?") for p in pieces)
